@@ -111,7 +111,7 @@ ClauseNames ==
     "C20_only_grow", "C20_confined", "C20_live_only", "C20_faithful",
     "C01_serial", "C01_no_double", "C01_outcomes", "C01_winner_holds",
     "C02_serial", "C02_wholelines", "C02_nowait", "C02_busy_fast", "C07_final", "C13_reader",
-    "C03_acked_survive",
+    "C03_acked_survive", "C03_acked_effects",
     "C09_serial",
     "C10_serial",
     "C14_final",
@@ -193,6 +193,7 @@ Eval(n, o) ==
     [] n = "C07_final" -> Cn!C07_final(o)
     [] n = "C13_reader" -> Cn!C13_reader(o)
     [] n = "C03_acked_survive" -> Cn!C03_acked_survive(o)
+    [] n = "C03_acked_effects" -> Cn!C03_acked_effects(o)
     [] n = "C09_serial" -> Cn!C09_serial(o)
     [] n = "C10_serial" -> Cn!C10_serial(o)
     [] n = "C14_final" -> Cn!C14_final(o)
@@ -245,7 +246,7 @@ Eval(n, o) ==
 \* the clauses the harness asked for on this record (all, unless it names some)
 ConcNames == {"C01_serial", "C01_no_double", "C01_outcomes", "C01_winner_holds",
               "C02_serial", "C02_wholelines", "C02_nowait", "C02_busy_fast", "C07_final", "C13_reader",
-              "C03_acked_survive",
+              "C03_acked_survive", "C03_acked_effects",
               "C09_serial",
               "C10_serial",
               "C14_final",
